@@ -117,7 +117,7 @@ func judgeSrc(c *fw.Ctx, src string, prog []*model.N, jo judgeOpts) (o h.Outcome
 		c.Skip("model step budget exceeded")
 		return o, res, true
 	}
-	o = h.RunFile(src, h.Opts{Stdin: jo.Stdin, Prefix: jo.Prefix, Fuel: fuelFor(res)})
+	o = h.RunFile(src, h.Opts{Stdin: jo.Stdin, Prefix: jo.Prefix, Fuel: fuelFor(res) + 40*int64(len(src))})
 	c.Eval(src, true)
 	c.Outcome(o.Stdout + "\x00" + o.FirstDiag())
 	base := fw.Replay{Mode: "file", Program: src, Stdin: jo.Stdin, Choices: jo.Prefix, CLI: len(jo.Prefix) == 0,
@@ -171,7 +171,7 @@ func judgeOneLine(c *fw.Ctx, prog []*model.N, jo judgeOpts, multi h.Outcome, res
 	if strings.Contains(src, "//") {
 		return // a line comment would swallow the rest
 	}
-	o := h.RunFile(src, h.Opts{Stdin: jo.Stdin, Prefix: jo.Prefix, Fuel: fuelFor(res)})
+	o := h.RunFile(src, h.Opts{Stdin: jo.Stdin, Prefix: jo.Prefix, Fuel: fuelFor(res) + 40*int64(len(src))})
 	c.Eval(src, true)
 	base := fw.Replay{Mode: "file", Program: src, Stdin: jo.Stdin, Choices: jo.Prefix, CLI: len(jo.Prefix) == 0, InStdout: o.Stdout, InStderr: o.Stderr, InStatus: o.Status}
 	if abnormal(c, o, "file", src, base) {
@@ -227,7 +227,7 @@ func judgeCRLF(c *fw.Ctx, src string, jo judgeOpts, multi h.Outcome, res *model.
 		}
 	}
 	crlf := strings.ReplaceAll(src, "\n", "\r\n")
-	o := h.RunFile(crlf, h.Opts{Stdin: jo.Stdin, Prefix: jo.Prefix, Fuel: fuelFor(res)})
+	o := h.RunFile(crlf, h.Opts{Stdin: jo.Stdin, Prefix: jo.Prefix, Fuel: fuelFor(res) + 40*int64(len(src))})
 	c.Eval(crlf, true)
 	base := fw.Replay{Mode: "file", Program: crlf, Stdin: jo.Stdin, Choices: jo.Prefix, CLI: len(jo.Prefix) == 0, InStdout: o.Stdout, InStderr: o.Stderr, InStatus: o.Status}
 	if abnormal(c, o, "file", crlf, base) {
